@@ -2,10 +2,11 @@ import Pyc.Model.Builder
 
 /-! Measures used by the size invariant of token packing (C08 extension `PackFit`).
 
-`_adding_asset_make_output_overflow` and the end-of-policy re-check of `_pack_tokens_for_change` (txbuilder.py:792-895)
-both measure `len(v.to_cbor())` of a `Value` `v` whose coin has first been REPLACED by `min_lovelace_post_alonzo` of
-the output under construction (`attempt_amount.coin = required_lovelace` / `updated_amount.coin = required_lovelace`).
-The coin the output held before only enters through that minimum (the serialized output it is computed from).
+`_adding_asset_make_output_overflow` and the end-of-policy re-check of `_pack_tokens_for_change` (txbuilder.py:792-898)
+both measure `len(v.to_cbor())` of a `Value` `v` whose coin has first been REPLACED by the larger of
+`min_lovelace_post_alonzo` of the output under construction and the coin that output holds
+(`attempt_amount.coin = max(required_lovelace, current_amount.coin)` / `updated_amount.coin = max(required_lovelace,
+updated_amount.coin)`, repair 8c81354); every output under construction holds the whole change coin.
 Nothing here is new behaviour of the code: these are names for the quantities the existing model
 (`Pyc.Builder.overflow`, `packPolicies`) already computes, made executable for the driver. -/
 
@@ -21,9 +22,10 @@ def coinLen (c : Int) : Nat := (encode (ofInt c)).length
 /-- size of the bundle alone, `len(multi_asset.to_cbor())` -/
 def bundleLen (m : MultiAsset) : Nat := (encMultiAsset m).length
 
-/-- the coin the probe writes into the measured value: the minimum ADA of an output at `addr` that holds bundle `m`
-and the coin `c` of the output under construction (`c` = the whole change coin for the first output, 0 afterwards) -/
-def probeCoin (p : Params) (addr : Bytes) (c : Int) (m : MultiAsset) : Int := minAda p addr ⟨c, m⟩
+/-- the coin the probe writes into the measured value: the larger of the minimum ADA of an output at `addr` that holds
+bundle `m` and coin `c`, and `c` itself — `c` is the coin of the output under construction, which since repair 8c81354 is the
+whole change coin for EVERY output (any of them may turn out to be the last, which receives what is left) -/
+def probeCoin (p : Params) (addr : Bytes) (c : Int) (m : MultiAsset) : Int := max (minAda p addr ⟨c, m⟩) c
 
 /-- what the probe compares with `max_val_size` -/
 def probeLen (p : Params) (addr : Bytes) (c : Int) (m : MultiAsset) : Nat := vlen ⟨probeCoin p addr c m, m⟩
@@ -33,16 +35,13 @@ def fits (p : Params) (addr : Bytes) (c : Int) (m : MultiAsset) : Bool := decide
 /-- the bundle of one asset on its own, as the packing loop builds it in a fresh output -/
 def single (pol : Bytes) (a : Bytes × Int) : MultiAsset := (flush ⟨0, []⟩ pol (Asset.add [] [a])).ma
 
-/-- no single asset (one policy with one name) exceeds the limit on its own — neither in a fresh output (coin 0) nor in
-the first output, which is measured under the change coin -/
+/-- no single asset (one policy with one name) exceeds the limit on its own, measured as the code measures every output:
+under the change coin -/
 def noSingleOver (p : Params) (addr : Bytes) (ch : Value) : Bool :=
-  ch.ma.all (fun pa => pa.2.all (fun a => fits p addr 0 (single pa.1 a) && fits p addr ch.coin (single pa.1 a)))
+  ch.ma.all (fun pa => pa.2.all (fun a => fits p addr ch.coin (single pa.1 a)))
 
 /-- number of `(policy, name)` pairs -/
 def pairCount (m : MultiAsset) : Nat := (m.map (fun pa => pa.2.length)).sum
-
-/-- the coin under which chunk number `i` was measured -/
-def coinAt (c0 : Int) (i : Nat) : Int := if i = 0 then c0 else 0
 
 /-- the value `_calc_change` hands to the packing: `provided − requested` with non-positive asset entries dropped
 (`Pyc.Builder.changeValue` of Proofs/Builder.lean, repeated here for the driver: `changeOf_eq`) -/
